@@ -9,7 +9,7 @@ HOLD_LABELS = ['call', 'wf.enter', 'wf.exit', 'add.enq', 'loop.wake', 'loop.pass
                'rel.enter', 'rel.bcast', 'jclose.marked', 'wuf.locked', 'wuf.wait', 'wuf.woken', 'pause.load', 'resume.check',
                'resume.stored', 'stop.waited', 'stop.chans', 'stop.nodes', 'stopall.removed', 'restart.waited', 'restart.closed',
                'restart.newchans', 'restart.reset', 'start.enter', 'start.node', 'node.init', 'tune.stored', 'tune.popped',
-               'purge.deq', 'job.sp.load', 'job.mc.load', 'jclose.checked', 'disp.cas.load', 'serve.wfdone', 'lifecycle.locked', 'tune.checked', 'reap.expired', 'add.pre', 'wgc.cas', 'resp.stored', 'resp.close', 'mgr.register', 'ad.sub', 'reap.tick', 'reap.snap', 'reap.removed', 'reap.stopped', 'ctx.fired', 'sub.notify', 'free.push', 'free.stop']
+               'purge.deq', 'job.sp.load', 'job.mc.load', 'jclose.checked', 'disp.cas.load', 'serve.wfdone', 'lifecycle.locked', 'tune.checked', 'reap.expired', 'add.pre', 'wgc.cas', 'resp.stored', 'resp.close', 'mgr.register', 'ad.sub', 'reap.tick', 'reap.snap', 'reap.removed', 'reap.stopped', 'ctx.fired', 'sub.notify', 'free.push', 'free.stop', 'bind.sub']
 
 
 def sched(rng, procs=('disp', 'pg', 'c', 'w', 'ctl', 'x')):
@@ -496,7 +496,13 @@ def fam_distbind(rng, pid):
         ops += [b.add(0, pr) for _ in range(rng.choice([1, 2]))]
     b.client('c1', ops)
     if rng.random() < 0.7:
-        b.client('c2', [{'op': 'RawAd', 'job': b.job(0), 'prio': rng.choice(PRIOS) if pr else 0} for _ in range(rng.choice([1, 2]))])
+        # the other producer's writes are spread out (Yield = a scheduling point of its own), so that some of them fall after
+        # the consumer's first look at the adapter and before its subscription
+        ops2 = []
+        for _ in range(rng.choice([1, 2, 3])):
+            ops2 += [{'op': 'Yield'}] * rng.choice([0, 1, 2, 4])
+            ops2.append({'op': 'RawAd', 'job': b.job(0), 'prio': rng.choice(PRIOS) if pr else 0})
+        b.client('c2', ops2)
     return b.prog(cfg)
 
 
